@@ -6,8 +6,10 @@ package c06
 
 import (
 	"context"
+	"encoding/json"
 	"errors"
 	"fmt"
+	"net/http"
 	"sort"
 	"strings"
 	"sync"
@@ -20,6 +22,7 @@ import (
 	"github.com/libp2p/go-libp2p/core/peer"
 
 	"verifharness/fixture"
+	"verifharness/memnet"
 	"verifharness/vp"
 )
 
@@ -65,6 +68,8 @@ type source struct {
 	fetchAlls int
 	// inFetchAll, when set, runs inside the next FetchAll (cancellation, overlapping refresh)
 	inFetchAll func()
+	// cancelling: the hook of the next FetchAll cancels the refresh's context
+	cancelling bool
 }
 
 func (s *source) rec(pid peer.ID, v int) *model.ProviderInfo {
@@ -154,6 +159,61 @@ func alphabet(thorough bool) []op {
 	return ops
 }
 
+// httpFront serves a fake source the way an indexer serves its providers.
+func httpFront(src *source) http.Handler {
+	return http.HandlerFunc(func(w http.ResponseWriter, r *http.Request) {
+		writeJSON := func(v any) {
+			b, err := json.Marshal(v)
+			if err != nil {
+				panic(err)
+			}
+			w.Header().Set("Content-Type", "application/json")
+			w.Write(b)
+		}
+		switch {
+		case r.URL.Path == "/providers":
+			src.mu.Lock()
+			cancelling := src.cancelling
+			src.cancelling = false
+			src.mu.Unlock()
+			infos, err := src.FetchAll(r.Context())
+			if cancelling {
+				// the caller of the refresh has cancelled it while this request
+				// was being served: it is the client's turn to notice (an answer
+				// that races with the cancellation would make the refresh
+				// complete or not by chance)
+				<-r.Context().Done()
+				return
+			}
+			if err != nil {
+				http.Error(w, err.Error(), http.StatusInternalServerError)
+				return
+			}
+			if infos == nil {
+				infos = []*model.ProviderInfo{}
+			}
+			writeJSON(infos)
+		case strings.HasPrefix(r.URL.Path, "/providers/"):
+			pid, err := peer.Decode(strings.TrimPrefix(r.URL.Path, "/providers/"))
+			if err != nil {
+				http.Error(w, err.Error(), http.StatusBadRequest)
+				return
+			}
+			pi, err := src.Fetch(r.Context(), pid)
+			switch {
+			case err != nil:
+				http.Error(w, err.Error(), http.StatusInternalServerError)
+			case pi == nil:
+				http.Error(w, "no such provider", http.StatusNotFound)
+			default:
+				writeJSON(pi)
+			}
+		default:
+			http.Error(w, "unknown path", http.StatusBadRequest)
+		}
+	})
+}
+
 // nSources and preload configure the cache of runSequence (default: two
 // sources, no preload); the extra passes of TestCheck change them.
 var (
@@ -163,6 +223,9 @@ var (
 	// virtual time any sequence spans, so that no automatic refresh ever falls
 	// due and everything has to be exactly as with the interval off
 	refreshInterval = time.Duration(0)
+	// viaHTTP: the cache reads its sources through the library's HTTP source
+	// (WithClient + WithSourceURL) instead of being handed them directly
+	viaHTTP = false
 )
 
 // alphabet3: the third source's own operations and a reduced set of the
@@ -245,7 +308,25 @@ func runSequence(t *testing.T, seq []op) (v *violation) {
 		}
 		// with preload the constructor itself refreshes once; the sources are
 		// still empty then, so the reference model has nothing to record
-		pc, err := pcache.New(pcache.WithSource(psrcs...), pcache.WithTTL(ttl), pcache.WithRefreshInterval(refreshInterval), pcache.WithPreload(preload))
+		popts := []pcache.Option{pcache.WithTTL(ttl), pcache.WithRefreshInterval(refreshInterval), pcache.WithPreload(preload)}
+		if viaHTTP {
+			// the library's own HTTP source in front of every fake source: an
+			// in-memory server per source answers /providers and
+			// /providers/<id> from the fake's state (500 while it is failing,
+			// 404 for a provider it does not have)
+			n := memnet.New()
+			var urls []string
+			for i, src := range srcs {
+				host := fmt.Sprintf("src%d.test:80", i)
+				stop := n.Serve(host, httpFront(src))
+				defer stop()
+				urls = append(urls, "http://"+host)
+			}
+			popts = append([]pcache.Option{pcache.WithClient(n.Client()), pcache.WithSourceURL(urls...)}, popts...)
+		} else {
+			popts = append(popts, pcache.WithSource(psrcs...))
+		}
+		pc, err := pcache.New(popts...)
 		if err != nil {
 			panic(err)
 		}
@@ -336,6 +417,7 @@ func runSequence(t *testing.T, seq []op) (v *violation) {
 					cut = o.src
 					srcs[o.src].mu.Lock()
 					srcs[o.src].inFetchAll = cancel
+					srcs[o.src].cancelling = true
 					srcs[o.src].mu.Unlock()
 				case "overlap":
 					innerDone = make(chan error, 1)
@@ -481,7 +563,7 @@ func mustParse(s string) time.Time {
 
 func TestCheck(t *testing.T) {
 	r := vp.New("C06", "model_checking",
-		"every sequence of <= depth operations over the alphabet {per-source content changes of provider P (appear, advance, regress on the other source, disappear, without time) and Q, source failure toggles, Refresh, Refresh cancelled while source 0 / source 1 is being read, Refresh overlapped by a second Refresh issued inside a source call, Get of P / Q / a never-reported provider, List, clock advances of ttl/2 and ttl+1s}, each run on a fresh real ProviderCache with two fake sources inside a synctest bubble (virtual clock), compared after every step with a reference model (freshest record ever handed to the cache per provider, first-unreported time, negative entries, Fetch call counts); plus a lifecycle layer of macro steps (change what the sources report for one provider, let 0 / ttl/2 / ttl+1s pass, Refresh): every sequence of 6 (quick) / 7 (thorough) macro steps with one source and of 4 / 5 with two sources, which reaches appear - disappear - reappear - expire histories of 15-25 flat operations; and the flat sequences once more, one operation shallower, with the three advertisement times rendered with a zone offset, in UTC and with fractional seconds, so that the strings sort in the opposite order of the instants; the same depth once more with three sources (alphabet: the third source's content changes and failure, refreshes cancelled while the second / the third source is being read, Get, clock advance) and with the two-source alphabet on a cache constructed with preload, and on one with the automatic-refresh interval set to a value that never falls due (everything must be as with the interval off), the last two also with the lifecycle layer one macro step shallower (appear - disappear - expire histories). states = distinct sequences; transitions = operations executed; traces = sequences executed on the real cache.",
+		"every sequence of <= depth operations over the alphabet {per-source content changes of provider P (appear, advance, regress on the other source, disappear, without time) and Q, source failure toggles, Refresh, Refresh cancelled while source 0 / source 1 is being read, Refresh overlapped by a second Refresh issued inside a source call, Get of P / Q / a never-reported provider, List, clock advances of ttl/2 and ttl+1s}, each run on a fresh real ProviderCache with two fake sources inside a synctest bubble (virtual clock), compared after every step with a reference model (freshest record ever handed to the cache per provider, first-unreported time, negative entries, Fetch call counts); plus a lifecycle layer of macro steps (change what the sources report for one provider, let 0 / ttl/2 / ttl+1s pass, Refresh): every sequence of 6 (quick) / 7 (thorough) macro steps with one source and of 4 / 5 with two sources, which reaches appear - disappear - reappear - expire histories of 15-25 flat operations; and the flat sequences once more, one operation shallower, with the three advertisement times rendered with a zone offset, in UTC and with fractional seconds, so that the strings sort in the opposite order of the instants; the same depth once more with three sources (alphabet: the third source's content changes and failure, refreshes cancelled while the second / the third source is being read, Get, clock advance) and with the two-source alphabet on a cache constructed with preload, and on one with the automatic-refresh interval set to a value that never falls due (everything must be as with the interval off), and with every source behind the library's own HTTP source (pcache.WithSourceURL; an in-memory server per source), the last three also with the lifecycle layer one / two macro steps shallower (appear - disappear - expire histories). states = distinct sequences; transitions = operations executed; traces = sequences executed on the real cache.",
 		"reference model is the oracle (trusted; written from the statement); nothing is asserted right after a refresh that returned an error, only after the next successful one",
 		"expiry is asserted only in histories in which every source responded in every refresh since the provider was last reported",
 		"records are compared by advertisement time, not identity (equal times are not ordered by the statement)",
@@ -579,7 +661,11 @@ func TestCheck(t *testing.T) {
 	preload, refreshInterval, keyPrefix = false, 100000*time.Hour, "interval-set|"
 	rec(nil)
 	lifecycle(t, r, thorough, 1)
-	nSources, preload, refreshInterval, keyPrefix = 2, false, 0, ""
+	// sixth pass: the sources behind the library's own HTTP source
+	preload, refreshInterval, viaHTTP, keyPrefix = false, 0, true, "http-sources|"
+	rec(nil)
+	lifecycle(t, r, thorough, 2)
+	nSources, preload, refreshInterval, viaHTTP, keyPrefix = 2, false, 0, false, ""
 	t.Logf("violations: %d", r.Violations())
 }
 
